@@ -50,6 +50,7 @@ pub fn generate(prop: &str, _run: u64, t: &mut Tape) -> Scenario {
             }
         }
         "C09" => gen3::gen_fan(t),
+        "C10" if _run % 8 == 7 => gen2::gen_nested_state(t),
         "C10" => gen2::gen_loopfam(t, gen2::LoopOpts { side: _run % 3 == 0, nested: true }),
         "C11" => gen2::gen_loopfam(t, gen2::LoopOpts { side: true, nested: false }),
         "C12" => gen2::gen_cwin(t),
